@@ -126,8 +126,8 @@ type e1run struct {
 	c16        func(r *e1run, k int)
 	sizeHook   func(r *e1run, ok bool)
 	finalHook  func(r *e1run)
-	stepHook  func(r *e1run)
-	nProbes   int
+	stepHook   func(r *e1run)
+	nProbes    int
 	faulted    bool // a storage fault was injected: the reference model no longer applies, only retention rules do
 	medNext    []int
 	medCount   []map[int]int
